@@ -679,3 +679,164 @@ func (g *tsrun) ClassCase() tsCase {
 	c.Desc = fmt.Sprintf("parameter properties and class fields, useDefineForClassFields=%v via %s", define, c.Tsconfig)
 	return c
 }
+
+// ---- experimental decorators (tsconfig experimentalDecorators): the TypeScript handbook's order — for every instance
+// member in document order its decorator expressions are evaluated top to bottom (method/accessor/property decorators,
+// then the parameter decorators in parameter order) and applied bottom to top; then the same for every static member;
+// then the class decorators together with the constructor's parameter decorators. The reference spells this out with
+// its own __decorate/__param (D$decorate / D$param).
+
+const tsDecoratorLib = `function d(k, tag) { $(k, "eval", tag); return function () { var a = arguments; $(k, "apply", tag, a.length, typeof a[0] === "function" ? "ctor:" + (a[0].tagName || "") : "proto", a[1] === void 0 ? "u" : String(a[1]), a[2] === void 0 ? "u" : typeof a[2] === "object" ? Object.keys(a[2]).sort().join() : String(a[2])); }; }
+function rep(k, tag) { $(k, "eval", tag); return function (c) { $(k, "apply", tag); var n = class extends c {}; n.tagName = tag; return n; }; }
+`
+const tsDecoratorRefLib = `function D$decorate(decs, target, key, desc) { var c = arguments.length, r = c < 3 ? target : desc === null ? desc = Object.getOwnPropertyDescriptor(target, key) : desc, f; for (var i = decs.length - 1; i >= 0; i--) if (f = decs[i]) r = (c < 3 ? f(r) : c > 3 ? f(target, key, r) : f(target, key)) || r; return c > 3 && r && Object.defineProperty(target, key, r), r; }
+function D$param(i, dec) { return function (t, k) { dec(t, k, i); }; }
+`
+
+func (g *tsrun) DecoratorCase() tsCase {
+	g.k = 0
+	r := g.rng
+	c := tsCase{Kind: "decorators", TS: map[string]string{}, JS: map[string]string{}, Entry: "/main", Tsconfig: `{"compilerOptions": {"experimentalDecorators": true, "useDefineForClassFields": false}}`}
+	dec := func(tag string) string { return fmt.Sprintf("d(%d, %q)", g.probe(), tag) }
+	type member struct {
+		ts, js  string   // declaration text (TS with decorators / plain JS)
+		static  bool
+		key     string
+		decs    []string // decorator expressions in source order (member decorators, then parameter decorators wrapped)
+		hasDesc bool     // method / accessor: descriptor looked up (null); property: void 0
+	}
+	var members []member
+	n := 2 + r.Intn(5)
+	for i := 0; i < n; i++ {
+		static := r.Intn(3) == 0
+		sp := ""
+		if static {
+			sp = "static "
+		}
+		key := fmt.Sprintf("k%d", i)
+		var own []string
+		for j, m := 0, 1+r.Intn(2); j < m; j++ {
+			own = append(own, dec(fmt.Sprintf("%s.%d", key, j)))
+		}
+		prefix := ""
+		for _, d := range own {
+			prefix += "@" + d + " "
+		}
+		switch r.Intn(4) {
+		case 0: // property
+			members = append(members, member{ts: "  " + prefix + sp + key + ";", js: "  " + sp + key + ";", static: static, key: key, decs: own, hasDesc: false})
+		case 1: // accessor
+			members = append(members, member{ts: "  " + prefix + sp + "get " + key + "() { return 1; }", js: "  " + sp + "get " + key + "() { return 1; }", static: static, key: key, decs: own, hasDesc: true})
+		default: // method, possibly with parameter decorators
+			np := r.Intn(3)
+			var psTS, psJS []string
+			decs := append([]string{}, own...)
+			for p := 0; p < np; p++ {
+				if r.Bool() {
+					pd := dec(fmt.Sprintf("%s.param%d", key, p))
+					psTS = append(psTS, "@"+pd+fmt.Sprintf(" a%d: any", p))
+					decs = append(decs, fmt.Sprintf("D$param(%d, %s)", p, pd))
+				} else {
+					psTS = append(psTS, fmt.Sprintf("a%d?: number", p))
+				}
+				psJS = append(psJS, fmt.Sprintf("a%d", p))
+			}
+			members = append(members, member{ts: "  " + prefix + sp + key + "(" + strings.Join(psTS, ", ") + ") {}", js: "  " + sp + key + "(" + strings.Join(psJS, ", ") + ") {}", static: static, key: key, decs: decs, hasDesc: true})
+		}
+	}
+	// class decorators and constructor parameter decorators
+	var classDecs []string
+	classPrefix := ""
+	for j, m := 0, r.Intn(3); j < m; j++ {
+		var d string
+		if r.Intn(3) == 0 {
+			d = fmt.Sprintf("rep(%d, %q)", g.probe(), fmt.Sprintf("class.%d", j))
+		} else {
+			d = dec(fmt.Sprintf("class.%d", j))
+		}
+		classDecs = append(classDecs, d)
+		classPrefix += "@" + d + "\n"
+	}
+	ctorTS, ctorJS := "", ""
+	var ctorDecs []string
+	if r.Bool() {
+		pd := dec("ctor.param0")
+		ctorTS = "  constructor(@" + pd + " x?: any) {}\n"
+		ctorJS = "  constructor(x) {}\n"
+		ctorDecs = append(ctorDecs, "D$param(0, "+pd+")")
+	}
+	var ts, js strings.Builder
+	ts.WriteString(tsDecoratorLib)
+	js.WriteString(tsDecoratorLib + tsDecoratorRefLib)
+	ts.WriteString(classPrefix + "class C {\n" + ctorTS)
+	js.WriteString("let C = class C {\n" + ctorJS)
+	for _, m := range members {
+		ts.WriteString(m.ts + "\n")
+		js.WriteString(m.js + "\n")
+	}
+	ts.WriteString("}\n")
+	js.WriteString("};\n")
+	for _, static := range []bool{false, true} {
+		for _, m := range members {
+			if m.static != static {
+				continue
+			}
+			target := "C.prototype"
+			if static {
+				target = "C"
+			}
+			desc := "void 0"
+			if m.hasDesc {
+				desc = "null"
+			}
+			js.WriteString(fmt.Sprintf("D$decorate([%s], %s, %q, %s);\n", strings.Join(m.decs, ", "), target, m.key, desc))
+		}
+	}
+	if len(classDecs)+len(ctorDecs) > 0 {
+		js.WriteString(fmt.Sprintf("C = D$decorate([%s], C);\n", strings.Join(append(append([]string{}, classDecs...), ctorDecs...), ", ")))
+	}
+	tail := fmt.Sprintf("$(%d, typeof C, C.tagName || \"\", Object.getOwnPropertyNames(C.prototype).sort().join());\n", g.probe())
+	ts.WriteString(tail)
+	js.WriteString(tail)
+	c.TS["/main.ts"] = ts.String()
+	c.JS["/main.js"] = js.String()
+	c.Desc = fmt.Sprintf("%d members, %d class decorators", len(members), len(classDecs))
+	return c
+}
+
+// ---- import-equals and export-equals
+func (g *tsrun) ImportEqualsCase() tsCase {
+	g.k = 0
+	r := g.rng
+	c := tsCase{Kind: "import-equals", TS: map[string]string{}, JS: map[string]string{}, Entry: "/main", Module: true}
+	var ts, js strings.Builder
+	ns := fmt.Sprintf("namespace NS { export const leaf = {v: $(%d, 1)}; export namespace Inner { export const deep = $(%d, 2); export function f() { return $(%d, 3); } } }\n", g.probe(), g.probe(), g.probe())
+	nsJS := strings.NewReplacer("namespace NS {", "var NS; (function (NS) {", "export const leaf =", "NS.leaf =", "export namespace Inner {", "let Inner; (function (Inner) {", "export const deep =", "Inner.deep =", "export function f()", "function f()").Replace(ns)
+	// close the IIFEs by hand
+	nsJS = fmt.Sprintf("var NS; (function (NS) { NS.leaf = {v: $(%d, 1)}; let Inner; (function (Inner) { Inner.deep = $(%d, 2); function f() { return $(%d, 3); } Inner.f = f; })(Inner = NS.Inner || (NS.Inner = {})); })(NS || (NS = {}));\n", g.k-2, g.k-1, g.k)
+	ts.WriteString(ns)
+	js.WriteString(nsJS)
+	aliases := [][2]string{{"a", "NS.leaf"}, {"b", "NS.Inner"}, {"c", "NS.Inner.deep"}, {"f", "NS.Inner.f"}}
+	r.Shuffle(len(aliases), func(i, j int) { aliases[i], aliases[j] = aliases[j], aliases[i] })
+	for i, al := range aliases[:2+r.Intn(3)] {
+		exported := r.Intn(3) == 0
+		if exported {
+			ts.WriteString(fmt.Sprintf("export import %s = %s;\n", al[0], al[1]))
+			js.WriteString(fmt.Sprintf("export var %s = %s;\n", al[0], al[1]))
+		} else {
+			ts.WriteString(fmt.Sprintf("import %s = %s;\n", al[0], al[1]))
+			js.WriteString(fmt.Sprintf("var %s = %s;\n", al[0], al[1]))
+		}
+		use := fmt.Sprintf("$(%d, typeof %s, typeof %s === \"function\" ? %s() : %s);\n", g.probe(), al[0], al[0], al[0], al[0])
+		_ = i
+		ts.WriteString(use)
+		js.WriteString(use)
+	}
+	// an alias used only as a type is erased
+	ts.WriteString(fmt.Sprintf("import OnlyType = NS.Inner;\nlet t: typeof OnlyType.deep = $(%d, 9) as any;\n$(%d, t);\n", g.probe(), g.probe()))
+	js.WriteString(fmt.Sprintf("let t = $(%d, 9);\n$(%d, t);\n", g.k-1, g.k))
+	c.TS["/main.ts"] = ts.String()
+	c.JS["/main.js"] = js.String()
+	c.Desc = "namespace aliases"
+	return c
+}
